@@ -414,6 +414,15 @@ def check_generic(prop, tier, cfgs, n_quick, n_thorough, sigfun, stages, level="
     root = common.scratch(prop.lower())
     try:
         progs = make_programs(prop, cfgs, n, root)
+        # mini programs that re-confirm this property's quarantined open findings
+        from . import gen_mini
+        for e in v.known:
+            if e.get("status") == "open" and e.get("mini") in gen_mini.MINIS:
+                ss = gen_mini.MINIS[e["mini"]](rng(prop, "mini", e["mini"]))
+                mp = Program(len(progs), ss, root, f"mini:{e['mini']}")
+                mp.port = None
+                mp.qfeature = (e.get("quarantine") or ["?"])[0]
+                progs.append(mp)
         progs = run_programs(progs, stages)
         evaluated, accepted, compiled = 0, 0, 0
         fps = set()
@@ -445,6 +454,8 @@ def check_generic(prop, tier, cfgs, n_quick, n_thorough, sigfun, stages, level="
             for f in p.findings:
                 rule_counts[f["rule"]] = rule_counts.get(f["rule"], 0) + 1
                 sig = sigfun(f)
+                if sig and getattr(p, "qfeature", None):
+                    sig += f"|only-in={p.qfeature}"
                 if sig:
                     detail = {k: x for k, x in f.items() if k not in ("flat",)}
                     detail["program"] = p.label
@@ -462,7 +473,12 @@ def check_generic(prop, tier, cfgs, n_quick, n_thorough, sigfun, stages, level="
             "inconclusive_programs": len(incon), "inconclusive_reasons": sorted(set(r[:160] for _, r in incon))[:5],
             "model_features_seen": feature_counts, "finding_rules_seen": rule_counts, "samples": samples,
         }
+        cells = {k.split(":", 1)[1]: v for k, v in stats.items() if k.startswith("restr_cell:") or k.startswith("cell:")}
+        stats = {k: v for k, v in stats.items() if not (k.startswith("restr_cell:") or k.startswith("cell:"))}
         cov.update(stats)
+        if cells:
+            cov["cells_observed"] = len(cells)
+            cov["cells"] = cells
         if excl_classes:
             cov["exclusion_classes"] = excl_classes
         if extra_cov:
@@ -520,8 +536,21 @@ WSDL_RULES = {
 }
 
 
+def _has_ambiguous_names(p):
+    seen = {}
+    for f, c in p.ss.all_components():
+        seen[c.name.xml] = seen.get(c.name.xml, 0) + 1
+    return any(v > 1 for v in seen.values())
+
+
 def all_cfgs(q):
-    return core_cfgs(q) + wsdl_cfgs(q)[1:]
+    pool = ["item", "code", "data", "info", "list", "note"]
+    return core_cfgs(q) + wsdl_cfgs(q)[1:] + [
+        ("names", gen.cfg_with(files=(2, 4), quarantine=q, name_pool=pool, max_words=2, keyword_rate=0.0, reuse_names=True,
+                               p_ref=0.45, p_ext=0.45, p_cross_file=0.7, elements_per_file=(1, 3), complex_per_file=(2, 4))),
+        ("names-wsdl", gen.cfg_with(files=(2, 3), wsdl=True, quarantine=q, name_pool=pool + ["part", "body"], max_words=2, keyword_rate=0.0,
+                                    reuse_names=True, p_ref=0.4, p_cross_file=0.7, attr_named_simple=False, ops=(1, 3),
+                                    complex_per_file=(1, 2), simple_per_file=(0, 2), elements_per_file=(1, 2), p_part_name_differs=0.3))]
 
 
 def run(prop, tier):
@@ -547,6 +576,57 @@ def run(prop, tier):
         check_generic(prop, tier, cfgs, nq, nt, sigf, ["static", "probe", lambda p: engine_w.stage_wsdl(p, full_matrix=full)],
                       level="fault_enumeration" if prop == "C16" else "exploration", rule=WSDL_RULES[prop],
                       nontrivial=lambda p: p.stats.get("operations_run", 0) > 0, min_eval=4)
+    elif prop == "C07":
+        from . import engine_w
+        cfgs = [("restr", gen.cfg_with(files=(1, 3), wsdl=True, quarantine=q, simple_per_file=(3, 6), complex_per_file=(1, 3),
+                                       elements_per_file=(0, 1), p_simple_derived=0.5, headers=(0, 2), ops=(1, 3), p_oneway=0.3))]
+        check_generic("C07", tier, cfgs, 12, 300, sig_c07, ["static", "probe", engine_w.stage_restr], rule=(
+            "WSDL programs with 3-6 restricted simple types per file (all facet kinds, derivation chains across namespaces) used as "
+            "elements and attributes, optional/repeated, nested, in header and body elements; per operation: 4 all-valid request "
+            "envelopes (full/low-boundary/high-boundary/many) and one envelope per reachable (position, violated facet) with exactly one "
+            "violating value (enumerated, capped at 40); for each the driver records check_restrictions(None) and runs the client call "
+            "against the listener, which counts accepted connections. Reference: a sample fails iff it contains the violating value. "
+            "Non-trivial = programs with >= 1 violating sample; evidence lists the (part/position/depth/optional/repeated/facet/derivation) cells"),
+            nontrivial=lambda p: p.stats.get("restr_samples", 0) > p.stats.get("restr_valid_samples", 0), min_eval=4)
+    elif prop == "C08":
+        cfgs = [("ext", gen.cfg_with(files=(1, 3), quarantine=q, p_ext=0.75, complex_per_file=(3, 6), simple_per_file=(0, 2),
+                                     elements_per_file=(0, 2), p_cross_file=0.6)),
+                ("ext-keywords", gen.cfg_with(files=(2, 3), quarantine=q, p_ext=0.75, complex_per_file=(3, 5), keyword_rate=0.25))]
+        check_generic("C08", tier, cfgs, 24, 800, sig_c08, ["static", "probe", stage_runtime], rule=(
+            "extension forests: depth 1-4 chains, bases declared before/after/in another file, own content empty / sequences / choices / "
+            "attributes, same or different namespaces; oracle = the C02 member-list and typed-probe oracle restricted to derived "
+            "structs (inherited members first, in the base's order, then own elements, then own attributes) and the C03 wire oracle on "
+            "values of derived types (inherited members keep the namespace of the declaring schema). Non-trivial = programs with an extension"),
+            nontrivial=lambda p: any(ft.startswith("extension") for ft in p.ss.features))
+    elif prop == "C09":
+        from . import engine_w
+        pool = ["item", "code", "data", "info", "list", "note"]
+        cfgs = [("names", gen.cfg_with(files=(2, 4), quarantine=q, name_pool=pool, max_words=2, keyword_rate=0.0, reuse_names=True,
+                                       p_ref=0.45, p_ext=0.45, p_cross_file=0.7, elements_per_file=(1, 3), complex_per_file=(2, 4))),
+                ("names-wsdl", gen.cfg_with(files=(2, 3), wsdl=True, quarantine=q, name_pool=pool + ["part", "body"], max_words=2, keyword_rate=0.0,
+                                            reuse_names=True, p_ref=0.4, p_cross_file=0.7, attr_named_simple=False, ops=(1, 3),
+                                            complex_per_file=(1, 2), simple_per_file=(0, 2), elements_per_file=(1, 2), p_part_name_differs=0.3))]
+        check_generic("C09", tier, cfgs, 24, 800, sig_c09,
+                      ["static", "probe", stage_runtime, lambda p: engine_w.stage_wsdl(p, full_matrix=False)], rule=(
+            "schema sets in which a pool of six words is reused for types in every namespace, global elements, local elements, attributes, "
+            "messages and parts; the same prefix is bound to different URIs in different files; declaration order and file split are random. "
+            "Oracles: typed probe (a member's type must be the struct of the namespace the prefix is bound to, a derived struct must show "
+            "that base's members), wire namespaces, and for WSDLs the body/header elements on the wire. Non-trivial = programs in which "
+            "some local name is used by >= 2 components"),
+            nontrivial=_has_ambiguous_names)
+    elif prop == "C10":
+        cfgs = [("ns", gen.cfg_with(files=(2, 4), quarantine=q, adversarial_uris=True, nested_xmlns=0.4, complex_per_file=(1, 2),
+                                    simple_per_file=(1, 2), elements_per_file=(0, 1), p_cross_file=0.8)),
+                ("ns-wsdl", gen.cfg_with(files=(2, 4), wsdl=True, quarantine=q, adversarial_uris=True, nested_xmlns=0.4, complex_per_file=(0, 1),
+                                         simple_per_file=(0, 1), elements_per_file=(0, 1), ops=(1, 2), attr_named_simple=False, p_cross_file=0.8))]
+        check_generic("C10", tier, cfgs, 48, 3000, sig_c10, ["static", "probe", stage_ns, lambda p: stage_runtime(p, 1, False)], rule=(
+            "2-4 namespaces per set drawn from an adversarial pool (equal last path segments /v1/types /v2/types, equal three-letter "
+            "abbreviations, dots, dashes, trailing slashes, URNs, non-ASCII, digits only), declared on the root, on the using component, "
+            "as targetNamespace only, or in imported files, in random import orders, XSD and WSDL starts. Static oracle over the emitted "
+            "text (syn): prefix<->URI and module<->URI injective both ways, no duplicate module, one module per namespace, every member "
+            "prefix bound in its struct to the declaring schema's URI; plus compile and one serialized value per struct (prefix "
+            "bindings on the wire). Non-trivial = programs with >= 2 distinct URIs seen"),
+            nontrivial=lambda p: p.stats.get("ns_distinct_uris", 0) >= 2)
     elif prop in ("C03", "C04"):
         sigf = sig_c03 if prop == "C03" else sig_c04
         check_generic(prop, tier, core_cfgs(q)[:3], 24, 600, sigf, ["static", "probe", stage_runtime], rule=(
@@ -885,4 +965,170 @@ def sig_c18(f):
         return f"C18|not-send|what={f['what']}|because={f.get('because') or '?'}"
     if r in ("call-did-not-complete", "runtime-hang"):
         return f"C18|{r}"
+    return None
+
+
+def sig_c07(f):
+    r = f["rule"]
+    if r == "restr-missed":
+        return (f"C07|missed|part={f['part']}|position={f['position']}|optional={f['optional']}|repeated={f['repeated']}"
+                f"|facet={f['facet']}|derivation={f['derivation']}")
+    if r == "restr-spurious":
+        return "C07|spurious"
+    if r == "restr-sent-before-check":
+        return "C07|sent-before-check"
+    if r == "restr-error-kind":
+        return f"C07|error-kind|result={f['result']}|kind={f['got_kind']}"
+    if r == "restr-valid-not-sent":
+        return f"C07|valid-request-not-sent|kind={f.get('kind')}"
+    return None
+
+
+# ------------------------------------------------------------------------------------------------ C10: namespace assignment
+
+def stage_ns(p):
+    """Static oracle over the emitted file: (prefix, URI) and (module, URI) assignments are injective both ways, every
+    namespace's components sit in one module, and every member prefix is bound, in its struct, to the URI of the schema
+    that declared the member."""
+    prefix_uri, uri_prefix, module_uri, uri_module = {}, {}, {}, {}
+    pairs = 0
+    structs = [s for s in p.shape["structs"] if s["module"].split("::")[0] not in refmap.HELPER_MODULES]
+    for s in structs:
+        ns = s["yaserde"].get("namespaces") or []
+        bound = {}
+        for pre, uri in ns:
+            if uri == "http://schemas.xmlsoap.org/soap/envelope/":
+                continue
+            pairs += 1
+            prefix_uri.setdefault(pre, set()).add(uri)
+            uri_prefix.setdefault(uri, set()).add(pre)
+            if pre in bound and bound[pre] != uri:
+                p.finding("ns", kind="prefix-rebound-in-one-struct", struct=s["name"], prefix=pre)
+            bound[pre] = uri
+        own = s["yaserde"].get("prefix")
+        if s["module"] and own in bound:
+            module_uri.setdefault(s["module"], set()).add(bound[own])
+            uri_module.setdefault(bound[own], set()).add(s["module"])
+        for f in s["fields"]:
+            fp = f["yaserde"].get("prefix")
+            if fp is None or fp == "soapenv":
+                continue
+            if fp not in bound:
+                p.finding("ns", kind="member-prefix-unbound", struct=s["name"], field=f["name"], prefix=fp)
+    for pre, uris in prefix_uri.items():
+        if len(uris) > 1:
+            p.finding("ns", kind="prefix-shared", prefix=pre, uris=sorted(uris), relation=_uri_relation(sorted(uris)))
+    for uri, pres in uri_prefix.items():
+        if len(pres) > 1:
+            p.finding("ns", kind="uri-two-prefixes", uri=uri, prefixes=sorted(pres))
+    for mod, uris in module_uri.items():
+        if len(uris) > 1:
+            p.finding("ns", kind="module-shared", module=mod, uris=sorted(uris), relation=_uri_relation(sorted(uris)))
+    for uri, mods in uri_module.items():
+        if len(mods) > 1:
+            p.finding("ns", kind="uri-two-modules", uri=uri, modules=sorted(mods))
+    seen = {}
+    for m in p.shape["modules"]:
+        if m["path"].split("::")[0] in refmap.HELPER_MODULES:
+            continue
+        seen[m["path"]] = seen.get(m["path"], 0) + 1
+    for path, n in seen.items():
+        if n > 1:
+            p.finding("ns", kind="module-duplicate", module=path, times=n)
+    # expected declaring namespace of each member (only for structs whose member list matched)
+    checked = 0
+    for e in p.expected:
+        hits = p.located.get(id(e), [])
+        if e["members"] is None or len(hits) != 1 or not e.get("shape_ok"):
+            continue
+        s = hits[0]
+        bound = {pre: uri for pre, uri in (s["yaserde"].get("namespaces") or [])}
+        for f, m in zip(s["fields"], e["members"]):
+            if m["kind"] == "attribute":
+                continue
+            fp = f["yaserde"].get("prefix")
+            checked += 1
+            exp_uri = m["decl_uri"] if m["kind"] != "ref" else p.ss.files[m["flat"]["target"].file].uri
+            if exp_uri is None:
+                continue
+            if fp is None:
+                p.finding("ns", kind="member-without-prefix", struct=s["name"], field=f["name"])
+            elif fp in bound and bound[fp] != exp_uri:
+                p.finding("ns", kind="member-prefix-wrong-uri", struct=s["name"], field=f["name"], bound=bound[fp], expected=exp_uri)
+    # one module per namespace, as the model sees it
+    by_uri = {}
+    for e in p.expected:
+        hits = p.located.get(id(e), [])
+        if len(hits) == 1 and e["uri"] is not None:
+            by_uri.setdefault(e["uri"], set()).add(hits[0]["module"])
+    for uri, mods in by_uri.items():
+        if len(mods) > 1:
+            p.finding("ns", kind="namespace-split-over-modules", uri=uri, modules=sorted(mods))
+    p.stats["ns_pairs_seen"] = pairs
+    p.stats["ns_member_prefixes_checked"] = checked
+    p.stats["ns_distinct_uris"] = len(uri_prefix)
+
+
+def _uri_relation(uris):
+    segs = [u.rstrip("/").split("/")[-1].split(":")[-1] for u in uris]
+    if len(set(segs)) == 1:
+        return "same-last-segment"
+    ab = ["".join(c for c in s.split("-")[-1] if c.isalnum())[:3].lower() for s in segs]
+    if len(set(ab)) == 1:
+        return "same-abbreviation"
+    return "other"
+
+
+def sig_c10(f):
+    if f["rule"] == "ns":
+        rel = f"|relation={f['relation']}" if "relation" in f else ""
+        return f"C10|{f['kind']}{rel}"
+    if f["rule"] == "compile-error":
+        return f"C10|does-not-compile|code={f['code']}|site={f['site']}"
+    if f["rule"] == "wire" and f["diff"]["kind"] in ("not-wellformed", "element-namespace"):
+        return f"C10|wire|{f['diff']['kind']}|{f['diff'].get('reason', '')}"
+    return None
+
+
+def sig_c08(f):
+    r = f["rule"]
+    if r in ("member-missing", "member-extra", "member-order", "member-type") and f.get("derived"):
+        if r == "member-missing":
+            kind = ("base-missing" if f["inherited"] else "own-missing") + ("-attribute" if f["kind"] == "attribute" else "")
+            return f"C08|members|kind={kind}|inherited-depth={min(f['inherited'], 3)}"
+        if r == "member-type":
+            return f"C08|members|kind=type|inherited-depth={min(f['inherited'], 3)}|expected={f['expected']}|actual={f['actual']}"
+        return f"C08|members|kind={r}"
+    if r == "wire":
+        o = f["diff"].get("origin")
+        if isinstance(o, (list, tuple)) and len(o) >= 3 and o[2] == "inherited":
+            return f"C08|wire|kind={f['diff']['kind']}|member-namespace={o[1]}"
+        if f["diff"]["kind"] == "not-wellformed":
+            return f"C08|wire|kind=not-wellformed|{f['diff'].get('reason')}"
+    if r == "compile-error":
+        return f"C08|does-not-compile|code={f['code']}|site={f['site']}"
+    return None
+
+
+def sig_c09(f):
+    r = f["rule"]
+    if r == "member-type" and f.get("wrong_struct"):
+        via = "ref" if f["kind"] == "ref" else "type"
+        return f"C09|bound-to|got=other-struct|via={via}|target-in={'own-file' if f['target_file'] == f['decl_file'] else 'other-file'}"
+    if r == "member-type":
+        return f"C09|bound-to|got=other-kind|expected={f['expected']}|actual={f['actual']}"
+    if r == "member-missing" and f.get("derived") and f["inherited"]:
+        return "C09|bound-to|got=wrong-or-no-base|via=base"
+    if r == "struct-missing":
+        return f"C09|component-missing|kind={f['kind']}"
+    if r == "struct-duplicate":
+        return f"C09|component-duplicate|kind={f['kind']}"
+    if r == "compile-error":
+        return f"C09|does-not-compile|code={f['code']}|site={f['site']}"
+    if r == "wire" and f["diff"]["kind"] in ("element-namespace", "element-local-name"):
+        return f"C09|wire|{f['diff']['kind']}"
+    if r == "envelope" and f["diff"]["kind"] in ("element-namespace", "element-local-name", "child-extra-or-renamed"):
+        return f"C09|body-or-header-element|{f['diff']['kind']}"
+    if r == "envelope-shape":
+        return f"C09|part-bound-to-other-element|direction={f['direction']}"
     return None
